@@ -670,7 +670,12 @@ waitSenders:
 			pd, _ := fs.Get(43)
 			if pd != "Y" {
 				// a first-time frame: it is inside the replay only if the same replay continues after it
-				// (the next PossDup frame carries exactly the number the coverage stopped at)
+				// (the next PossDup frame carries exactly the number the coverage stopped at). A first-time frame
+				// carrying that very number ends the replay by itself: the number had not been used when the
+				// replay's range was fixed, so a later PossDup frame with it answers another request.
+				if wire[k].Seq <= cur {
+					break
+				}
 				continues := false
 				for j := k + 1; j < len(wire); j++ {
 					if p2, _ := wire[j].Fields.Get(43); p2 == "Y" {
